@@ -3,6 +3,7 @@
 From ToughV Require Export Model.Base Model.Json Model.CJson.
 From ToughV Require Import Proofs.BaseP.
 From ToughV Require Export Proofs.CJsonP.
+From ToughV Require Export Model.Schema Proofs.CJsonNfcP.
 From Coq Require Export Permutation Sorted.
 
 (* what is assumed of Unicode normalisation (a parameter of model and specification): it maps the
@@ -56,6 +57,37 @@ Print Assumptions C11_output_sorted.
 Theorem C11_float_refused : forall nfc v, has_float v -> canon_spec nfc v = None.
 Proof. exact canon_spec_float_refused. Qed.
 Print Assumptions C11_float_refused.
+
+(* "... and only of it": what the canonical form can see of a value is the value with every string
+   and member name normalised ([jmap nfc]) and members sorted by name at every depth, a later
+   duplicate replacing an earlier one ([jnorm], what serde_json's map does). Two values serialise to
+   the same bytes iff they agree in that - for every normalisation function, every value, every
+   depth; so values that differ in anything but string normalisation and member order never
+   serialise to the same bytes. *)
+Theorem C11_only_of_it : forall nfc v1 v2 b, canon_spec nfc v1 = Some b ->
+  (canon_spec nfc v2 = Some b <->
+   (jnorm (jmap nfc v2) = jnorm (jmap nfc v1) /\ canon_spec nfc v2 <> None)).
+Proof. exact canon_only_of_it. Qed.
+Print Assumptions C11_only_of_it.
+
+Theorem C11_injective : forall nfc v1 v2 b,
+  canon_spec nfc v1 = Some b -> canon_spec nfc v2 = Some b -> jnorm (jmap nfc v1) = jnorm (jmap nfc v2).
+Proof. exact canon_injective. Qed.
+Print Assumptions C11_injective.
+
+(* non-vacuity of C11_only_of_it: values that differ in a scalar, in nesting, or in a name have
+   different observable parts; a value and its re-ordering have the same *)
+Example C11_only_of_it_example :
+  let a := JObj [([97], JInt 1); ([98], JArr [JStr [49]])] in
+  let a' := JObj [([98], JArr [JStr [49]]); ([97], JInt 1)] in
+  let b := JObj [([97], JInt 1); ([98], JArr [JInt 1])] in
+  let c := JObj [([97], JInt 1); ([98], JStr [49])] in
+  jnorm (jmap (fun s => s) a) = jnorm (jmap (fun s => s) a')
+  /\ jnorm (jmap (fun s => s) a) <> jnorm (jmap (fun s => s) b)
+  /\ jnorm (jmap (fun s => s) b) <> jnorm (jmap (fun s => s) c)
+  /\ canon_spec (fun s => s) a = canon_spec (fun s => s) a'
+  /\ canon_spec (fun s => s) a <> canon_spec (fun s => s) b.
+Proof. vm_compute. repeat split; discriminate. Qed.
 
 (* non-vacuity: the identity (all-ASCII input) meets the normalisation hypotheses *)
 Example C11_nfc_ok_satisfiable : nfc_ok (fun s => s).
